@@ -11,6 +11,17 @@
 //!           poisoned handle rejects everything and writes nothing, and reopening through the
 //!           database yields the old or the new state in full (C01 document oracle + C02 audit);
 //!           database-level APIs are cancelled the same way and a retry must complete.
+//!  queued_poison  a call issued while a mutation is in flight that is then dropped (poison) or while
+//!           the handle / database turns read-only: if it had not reached the backend it is refused.
+//!  gate_queue  a holder of the EXCLUSIVE operation gate (flush, database flush, compactions,
+//!           reconcile, or the transition call itself) is parked at each of its backend calls; calls
+//!           of every kind are issued (they wait at the gate), the transition is performed (read-only
+//!           on the collection / the database, close, close_collection, delete, database close,
+//!           poison by dropping or failing the holder), then the backend is opened: every call that
+//!           waited at the gate is refused and nothing of it reaches the backend, now or through a
+//!           later checkpoint; control scenarios show the same queued calls are admitted otherwise.
+//!  db_queue  (measured) delete_collection waiting at the per-name lock when the database turns
+//!           read-only.
 
 use anda_db::collection::Collection;
 use anda_db::error::CollectionState;
@@ -929,17 +940,580 @@ fn queued_poison_case(case: u64, rng: &mut Rng, st: &mut Stats) {
     });
 }
 
+// ---------------------------------------------------------------------------------------------
+// calls QUEUED AT THE OPERATION GATE behind a holder of the exclusive gate when the transition begins
+
+/// What holds the exclusive operation gate (parked at one of its backend calls) while the calls
+/// are issued. `None` in a scenario = the transition call itself (close / delete ...) is the
+/// parked holder.
+#[derive(Clone, Copy, Debug, PartialEq, Eq)]
+enum GHolder {
+    Flush,
+    DbFlush,
+    CompactBtree,
+    CompactBm25,
+    Reconcile,
+}
+const GHOLDERS: [GHolder; 5] = [GHolder::Flush, GHolder::DbFlush, GHolder::CompactBtree, GHolder::CompactBm25, GHolder::Reconcile];
+
+/// The transition performed while the calls wait at the gate.
+#[derive(Clone, Copy, Debug, PartialEq, Eq)]
+enum GTr {
+    CollReadOnly,
+    DbReadOnly,
+    /// database flag on, then the collection-level switch is (illegitimately) turned off
+    DbReadOnlyThenCollectionSwitchOff,
+    Close,
+    CloseCollection,
+    Delete,
+    DbClose,
+    /// the parked holder's future is dropped
+    PoisonByDrop,
+    /// the parked holder's next backend write fails
+    PoisonByFault,
+    // --- not judged (the handle is writable when the queued calls get their turn): evidence that
+    // --- the same queued calls are real writers, and that a lifted flag admits them again
+    CollReadOnlyLifted,
+    DbReadOnlyLifted,
+    Control,
+}
+const GTRS: [GTr; 12] = [
+    GTr::CollReadOnly, GTr::DbReadOnly, GTr::DbReadOnlyThenCollectionSwitchOff, GTr::Close, GTr::CloseCollection, GTr::Delete,
+    GTr::DbClose, GTr::PoisonByDrop, GTr::PoisonByFault, GTr::CollReadOnlyLifted, GTr::DbReadOnlyLifted, GTr::Control,
+];
+impl GTr {
+    fn read_only(self) -> bool {
+        matches!(self, GTr::CollReadOnly | GTr::DbReadOnly | GTr::DbReadOnlyThenCollectionSwitchOff)
+    }
+    fn is_call(self) -> bool {
+        matches!(self, GTr::Close | GTr::CloseCollection | GTr::Delete | GTr::DbClose)
+    }
+    fn unjudged(self) -> bool {
+        matches!(self, GTr::CollReadOnlyLifted | GTr::DbReadOnlyLifted | GTr::Control)
+    }
+}
+
+#[derive(Clone, Copy, Debug, PartialEq, Eq)]
+enum GCall {
+    Add,
+    Update,
+    Remove,
+    SaveExt,
+    RemoveExt,
+    Flush,
+    CompactBtree,
+    CompactBm25,
+    Reconcile,
+}
+const GCALLS: [GCall; 9] = [GCall::Add, GCall::Update, GCall::Remove, GCall::SaveExt, GCall::RemoveExt, GCall::Flush, GCall::CompactBtree, GCall::CompactBm25, GCall::Reconcile];
+impl GCall {
+    /// calls that always have something to write when they are admitted (the control scenario
+    /// shows it)
+    fn always_writes(self) -> bool {
+        matches!(self, GCall::Add | GCall::Update | GCall::Remove | GCall::SaveExt | GCall::RemoveExt)
+    }
+}
+
+fn gate_scenarios() -> Vec<(Option<GHolder>, GTr)> {
+    let mut v = vec![];
+    for h in GHOLDERS {
+        for t in GTRS {
+            v.push((Some(h), t));
+        }
+    }
+    for t in [GTr::Close, GTr::CloseCollection, GTr::Delete, GTr::DbClose] {
+        v.push((None, t));
+    }
+    v
+}
+
+/// One scenario = (holder of the exclusive gate, transition). For every k: the holder is polled k
+/// times (it is then parked at its k-th backend call, holding the exclusive gate), mutating calls
+/// of every kind are issued and polled once (they wait at the gate: parked, not woken, no backend
+/// call outstanding), the transition is performed, the backend gate is opened, the holder is
+/// allowed to finish on its own, and only then the queued calls are polled. A call that was
+/// waiting at the gate when the transition began must be refused and nothing of it may reach the
+/// backend (every mutation is attributed to the one task that was polled when it landed).
+fn gate_queue_case(case: u64, rng: &mut Rng, st: &mut Stats) {
+    let scen = gate_scenarios();
+    let (holder, tr) = scen[(case % scen.len() as u64) as usize];
+    let variant = case / scen.len() as u64;
+    let wl = rng.fork();
+    let hname = holder.map(|h| format!("{h:?}")).unwrap_or_else(|| "TransitionItself".into());
+    block_on(async {
+        let mut k = 1usize;
+        loop {
+            let mut r = wl.clone();
+            let Some((store, d)) = populate(&mut r, st, 8 + (variant % 4) as usize, false).await else { return };
+            let mut d = d;
+            // pending work for the holder: several index buckets, an unflushed document and an
+            // unflushed extension change
+            for i in 0..3u64 {
+                let mut x = fresh_doc(&mut r, "gq");
+                x.tags = (0..4).map(|j| format!("long-distinct-tag-value-{i}-{j}")).collect();
+                x.body = (0..8).map(|j| format!("unique{i}word{j}")).collect::<Vec<_>>().join(" ");
+                let _ = d.step(&Op::Add(x), st).await;
+            }
+            if variant % 2 == 1 {
+                let _ = d.step(&Op::Flush, st).await;
+                let _ = d.step(&Op::Add(fresh_doc(&mut r, "gr")), st).await;
+            }
+            let _ = d.step(&Op::SaveExt("k1".into(), 7), st).await;
+            let c = d.coll.clone();
+            let db = d.db.clone();
+            let before = d.model.clone();
+            let upd_id = before.docs.keys().next().copied().unwrap_or(1);
+            let rem_id = before.docs.keys().nth(1).copied().unwrap_or(upd_id);
+            // which calls are queued, in which order: all kinds, or 1-3 of them
+            let mut kr = Rng::derive(r.next_u64(), k as u64);
+            let mut calls: Vec<GCall> = GCALLS.to_vec();
+            kr.shuffle(&mut calls);
+            if (k as u64 + variant) % 3 == 2 {
+                calls.truncate(1 + kr.usize(3));
+            }
+            let try_reenable = kr.bool();
+            let new_doc = fresh_doc(&mut kr, "gn");
+
+            store.set_gate(true);
+            store.set_gate_after(variant % 2 == 1);
+            let mut ex: ManualExec<'_, Result<(), String>> = ManualExec::new();
+            let e = |r: Result<(), anda_db::error::DBError>| r.map_err(|e| format!("{e:?}"));
+            let tr_fut = move |c2: Arc<Collection>, db2: anda_db::database::AndaDB| async move {
+                match tr {
+                    GTr::Close => e(c2.close().await),
+                    GTr::CloseCollection => e(db2.close_collection(COLL).await),
+                    GTr::Delete => e(db2.delete_collection(COLL).await),
+                    _ => e(db2.close().await),
+                }
+            };
+            // ---- the holder, parked at its k-th backend call
+            let th = match holder {
+                Some(h) => {
+                    let (c2, db2) = (c.clone(), db.clone());
+                    ex.spawn(async move {
+                        match h {
+                            GHolder::Flush => e(c2.flush(anda_db::unix_ms()).await.map(|_| ())),
+                            GHolder::DbFlush => e(db2.flush().await),
+                            GHolder::CompactBtree => e(c2.compact_btree_index(&["tags"]).await),
+                            GHolder::CompactBm25 => e(c2.compact_bm25_index(&["body"]).await),
+                            GHolder::Reconcile => e(c2.reconcile_storage().await.map(|_| ())),
+                        }
+                    })
+                }
+                None => ex.spawn(tr_fut(c.clone(), db.clone())),
+            };
+            let mut h_done = false;
+            for _ in 0..k {
+                if ex.poll(th) {
+                    h_done = true;
+                    break;
+                }
+            }
+            if h_done {
+                store.set_gate(false);
+                store.set_gate_after(false);
+                break;
+            }
+            // the transition-as-holder must have published its state by now (it does so before
+            // its first backend call); otherwise the calls below are simply early, not judged
+            let published_by_holder = holder.is_none() && (c.state() != CollectionState::Active || db.is_read_only());
+            if holder.is_none() && !published_by_holder {
+                st.count("gate_queue_transition_call_not_published_yet(not judged)");
+            }
+            // ---- the calls, issued now
+            let mark_calls = store.mark();
+            let mut tq: Vec<(GCall, usize)> = vec![];
+            for call in &calls {
+                let call = *call;
+                let (c3, nd) = (c.clone(), new_doc.clone());
+                let t = ex.spawn(async move {
+                    match call {
+                        GCall::Add => e(c3.add_from(&nd).await.map(|_| ())),
+                        GCall::Update => {
+                            let mut p = Patch::new();
+                            p.insert("age".into(), Fv::U64(91));
+                            p.insert("body".into(), Fv::Text("kernel lemon".into()));
+                            e(c3.update(upd_id, p).await.map(|_| ()))
+                        }
+                        GCall::Remove => e(c3.remove(rem_id).await.map(|_| ())),
+                        GCall::SaveExt => e(c3.save_extension("kq".into(), Fv::U64(5)).await),
+                        GCall::RemoveExt => e(c3.remove_extension("k0").await.map(|_| ())),
+                        GCall::Flush => e(c3.flush(anda_db::unix_ms()).await.map(|_| ())),
+                        GCall::CompactBtree => e(c3.compact_btree_index(&["age"]).await),
+                        GCall::CompactBm25 => e(c3.compact_bm25_index(&["body"]).await),
+                        GCall::Reconcile => e(c3.reconcile_storage().await.map(|_| ())),
+                    }
+                });
+                tq.push((call, t));
+            }
+            // queued[i]: the call is parked and NOT woken after its first poll = it waits for a
+            // lock (the operation gate is the first thing every one of them awaits); a call that
+            // is woken sits at a backend call of its own (it was admitted: not "queued")
+            // Only an unbroken prefix of parked calls counts: as long as no call issued before it
+            // was admitted, a parked call can only wait for the holder (directly or in the
+            // gate's queue), not for an inner lock of another admitted call.
+            let mut queued: Vec<bool> = vec![];
+            let mut wrote: Vec<Vec<String>> = vec![vec![]; tq.len()];
+            let mut all_parked_so_far = true;
+            for (i, (_, t)) in tq.iter().enumerate() {
+                let m = store.mark();
+                let done = ex.poll(*t);
+                wrote[i].extend(effective_under_prefix(&store, m));
+                all_parked_so_far &= !done && !ex.enabled().contains(t);
+                queued.push(all_parked_so_far);
+            }
+            let wrote_before_transition = effective_under_prefix(&store, mark_calls);
+            // ---- the transition
+            let mut tt: Option<usize> = None;
+            match tr {
+                GTr::CollReadOnly => c.set_read_only(true),
+                GTr::DbReadOnly => db.set_read_only(true),
+                GTr::DbReadOnlyThenCollectionSwitchOff => {
+                    db.set_read_only(true);
+                    c.set_read_only(false);
+                }
+                GTr::CollReadOnlyLifted => {
+                    c.set_read_only(true);
+                    c.set_read_only(false);
+                }
+                GTr::DbReadOnlyLifted => {
+                    db.set_read_only(true);
+                    db.set_read_only(false);
+                }
+                GTr::Control => {}
+                GTr::PoisonByDrop => ex.cancel(th),
+                GTr::PoisonByFault => store.set_fault(if kr.bool() { Fault::FailBefore(store.attempts()) } else { Fault::FailAfter(store.attempts()) }),
+                GTr::Close | GTr::CloseCollection | GTr::Delete | GTr::DbClose => {
+                    if holder.is_some() {
+                        // the call publishes the terminal state at once and then waits for the
+                        // gate itself (behind the calls above) or sits at a backend call of the
+                        // database
+                        let t = ex.spawn(tr_fut(c.clone(), db.clone()));
+                        ex.poll(t);
+                        tt = Some(t);
+                    }
+                }
+            }
+            let published = match tr {
+                GTr::Close | GTr::CloseCollection | GTr::Delete => c.state() != CollectionState::Active,
+                GTr::DbClose => db.is_read_only(),
+                _ => true,
+            };
+            if tr.is_call() && try_reenable {
+                // a retired handle cannot be made writable again
+                c.set_read_only(false);
+            }
+            // ---- open the backend. The holder runs whenever it can (it finishes on its own before
+            // any queued call is polled, unless it waits for a lock of the transition call), then
+            // the queued calls in their order, then the transition call. Every mutation is
+            // attributed to the task whose poll it landed in.
+            store.set_gate(false);
+            store.set_gate_after(false);
+            let mut state_when_calls_resumed: Option<CollectionState> = None;
+            let mut steps = 0;
+            // the holder alone, as far as it gets: the first parked call must be woken by that
+            // (it then really waited for something the holder held - the gate), otherwise
+            // nothing of this point is judged as "queued"
+            for _ in 0..4000 {
+                if !ex.enabled().contains(&th) {
+                    break;
+                }
+                ex.poll(th);
+            }
+            if ex.is_done(th) {
+                store.reset_faults();
+            }
+            let first_woken_by_holder = tq.first().is_some_and(|(_, t)| ex.enabled().contains(t));
+            if queued.first() == Some(&true) && !first_woken_by_holder {
+                st.count("gate_queue_parked_call_not_woken_by_the_holder(not judged)");
+                queued.iter_mut().for_each(|q| *q = false);
+            }
+            let deadlock = loop {
+                let en = ex.enabled();
+                if en.contains(&th) {
+                    ex.poll(th);
+                    if ex.is_done(th) {
+                        // an injected fault is the holder's alone
+                        store.reset_faults();
+                    }
+                } else if let Some(i) = tq.iter().position(|(_, t)| en.contains(t)) {
+                    if state_when_calls_resumed.is_none() {
+                        state_when_calls_resumed = Some(c.state());
+                    }
+                    let m = store.mark();
+                    ex.poll(tq[i].1);
+                    wrote[i].extend(effective_under_prefix(&store, m));
+                } else if let Some(t) = tt.filter(|t| en.contains(t)) {
+                    ex.poll(t);
+                } else {
+                    // the backend gate is open and no task is woken: whatever has not returned
+                    // by now never will
+                    break !ex.all_done();
+                }
+                steps += 1;
+                if steps > 20000 {
+                    st.inconclusive("C06 gate_queue: step cap");
+                    return;
+                }
+            };
+            store.reset_faults();
+            let state_after_holder = state_when_calls_resumed.unwrap_or_else(|| c.state());
+            let results: Vec<Option<Result<(), String>>> = tq.iter().map(|(_, t)| ex.take_result(*t)).collect();
+            let holder_result = ex.take_result(th);
+            let tr_result = tt.and_then(|t| ex.take_result(t));
+            drop(ex);
+            st.eval();
+            st.count("gate_queue_points");
+            st.count(&format!("gate_queue:{tr:?}"));
+            st.count(&format!("gate_queue_holder:{hname}"));
+            let ctx = |extra: Value| {
+                json!({"holder": hname, "holder_parked_after_polls": k, "transition": format!("{tr:?}"), "variant": variant,
+                    "calls": tq.iter().enumerate().map(|(i, (call, _))| json!({"call": format!("{call:?}"), "waited_at_the_gate": queued[i],
+                        "result": format!("{:?}", results[i]), "backend_mutations": wrote[i]})).collect::<Vec<_>>(),
+                    "holder_result": format!("{holder_result:?}"), "transition_result": format!("{tr_result:?}"),
+                    "state_after_holder": format!("{state_after_holder:?}"), "set_read_only(false)_tried_after_transition": try_reenable,
+                    "history": d.history, "extra": extra})
+            };
+            if deadlock {
+                // logical: the backend gate is open, no task is woken, yet calls have not returned
+                st.violation(format!("C06/gate_queue/{tr:?}/call_never_returns"), ctx(json!(null)));
+                return;
+            }
+            if holder.is_some() && !wrote_before_transition.is_empty() {
+                // a call reached the backend while another one held the exclusive gate: it did
+                // not wait, so it is no queued call (measured; C05's business)
+                st.count("gate_queue_call_wrote_next_to_the_exclusive_holder(measured)");
+            }
+            // is the handle refusing when the queued calls get their turn?
+            let refusing = match tr {
+                GTr::PoisonByDrop | GTr::PoisonByFault => state_after_holder == CollectionState::Poisoned,
+                t if t.unjudged() => false,
+                _ => published,
+            };
+            if matches!(tr, GTr::PoisonByDrop | GTr::PoisonByFault) && !refusing {
+                st.count(&format!("gate_queue_holder_not_poisoned(not judged):{tr:?}:{hname}"));
+            }
+            for (i, (call, _)) in tq.iter().enumerate() {
+                let accepted = matches!(results[i], Some(Ok(())));
+                if tr.unjudged() {
+                    if queued[i] {
+                        st.count("gate_queue_control_calls");
+                        if accepted {
+                            st.count(&format!("gate_queue_control_accepted:{call:?}"));
+                        }
+                        if accepted && call.always_writes() {
+                            st.count(if wrote[i].is_empty() { "gate_queue_control_writer_wrote_nothing(measured)" } else { "gate_queue_control_writer_wrote" });
+                        }
+                    }
+                    continue;
+                }
+                // judged: calls that waited at the gate when the transition began, and calls
+                // issued after the parked transition call had published its state
+                let judged = refusing && (if holder.is_some() { queued[i] } else { published_by_holder });
+                if !judged {
+                    st.count("gate_queue_calls_not_judged");
+                    continue;
+                }
+                st.count("gate_queue_calls_judged");
+                st.count(&format!("gate_queue_judged:{call:?}"));
+                st.count(&format!("gate_queue_judged_under:{tr:?}"));
+                st.set("gate_queue_judged_transition_x_call", vcore::fnv_str(&format!("{tr:?}/{call:?}")));
+                st.set("gate_queue_judged_holder_x_transition", vcore::fnv_str(&format!("{hname}/{tr:?}")));
+                if queued[i] {
+                    st.count("gate_queue_judged_calls_that_waited_at_the_gate");
+                }
+                if !wrote[i].is_empty() {
+                    st.violation(format!("C06/gate_queue/{tr:?}/queued_{call:?}_wrote_after_the_transition"), ctx(json!({"call": format!("{call:?}"), "mutations": wrote[i]})));
+                    return;
+                }
+                if accepted {
+                    st.violation(format!("C06/gate_queue/{tr:?}/queued_{call:?}_accepted_after_the_transition"), ctx(json!({"call": format!("{call:?}")})));
+                    return;
+                }
+            }
+            if tr.unjudged() {
+                k += if k < 12 { 1 } else { 3 };
+                continue;
+            }
+            if let Some(Err(err)) = if holder.is_some() { &tr_result } else { &holder_result } {
+                st.violation(format!("C06/gate_queue/{tr:?}/transition_failed"), ctx(json!(err)));
+                return;
+            }
+            if !tr.read_only() && refusing && c.state() == CollectionState::Active {
+                st.violation(format!("C06/gate_queue/{tr:?}/handle_active_again"), ctx(json!(null)));
+                return;
+            }
+            // ---- nothing of a refused call is stored, now or by a later checkpoint
+            let done_delete = tr == GTr::Delete && (holder.is_some() || matches!(holder_result, Some(Ok(()))));
+            if done_delete {
+                let left = list_prefix(&store).await;
+                if !left.is_empty() {
+                    st.violation("C06/gate_queue/Delete/objects_left", ctx(json!(left)));
+                    return;
+                }
+            } else if results.iter().any(|r| matches!(r, Some(Ok(())))) || wrote.iter().any(|w| !w.is_empty()) {
+                // a call that did not wait (the holder had released the gate already) was admitted
+                // before the transition: what is stored now is not the state before the calls
+                st.count("gate_queue_reopen_not_audited_because_an_unqueued_call_was_admitted");
+            } else if refusing && tr != GTr::Delete {
+                if tr.read_only() {
+                    // the legitimate switch back, then a checkpoint on the same handle: a refused
+                    // call must not have left anything in memory that is persisted now
+                    db.set_read_only(false);
+                    c.set_read_only(false);
+                    if let Err(err) = c.flush(anda_db::unix_ms()).await {
+                        st.violation(format!("C06/gate_queue/{tr:?}/flush_after_switching_back_failed"), ctx(json!(format!("{err:?}"))));
+                        return;
+                    }
+                }
+                let snap = store.snapshot().await;
+                let reopened = async {
+                    let db = v_db::connect(snap as Arc<dyn ObjectStore>, &d.cfg).await.map_err(|e| format!("{e:?}"))?;
+                    open_coll(&db, IndexSet::ALL).await.map_err(|e| format!("{e:?}"))
+                }
+                .await;
+                match reopened {
+                    Ok(nc) => {
+                        st.count("gate_queue_reopens_audited");
+                        if !audit(&nc, &before, IndexSet::ALL, st, &AuditCtx { sig: &format!("C06/gate_queue/{tr:?}/refused_call_left_a_trace/after_reopen"), ctx: &|| ctx(json!(null)) }).await {
+                            return;
+                        }
+                        let ext: std::collections::BTreeMap<String, u64> =
+                            ["k0", "k1", "k2", "kq"].iter().filter_map(|key| nc.get_extension_as::<u64>(key).map(|v| (key.to_string(), v))).collect();
+                        if ext != before.ext {
+                            st.violation(format!("C06/gate_queue/{tr:?}/refused_call_left_a_trace/extensions_after_reopen"),
+                                ctx(json!({"expected": format!("{:?}", before.ext), "got": format!("{ext:?}")})));
+                            return;
+                        }
+                    }
+                    Err(err) => {
+                        st.violation(format!("C06/gate_queue/{tr:?}/reopen_failed"), ctx(json!(err)));
+                        return;
+                    }
+                }
+            }
+            st.distinct(vcore::fnv_str(&format!("gq{hname}{tr:?}{k}")) ^ case);
+            if k == 1 {
+                st.sample(|| json!({"monitor": "gate_queue", "holder": hname, "transition": format!("{tr:?}"), "calls": calls.iter().map(|x| format!("{x:?}")).collect::<Vec<_>>(), "waited_at_the_gate": queued}));
+            }
+            k += if k < 12 { 1 } else { 3 };
+            if k > 400 {
+                break;
+            }
+        }
+    });
+}
+
+// ---------------------------------------------------------------------------------------------
+// the database-level queue: delete_collection waiting at the per-name lifecycle lock when the
+// database turns read-only
+
+/// `delete_collection` is not a call ON the handle, so the letter of the property does not cover
+/// it: on the unchanged tree a delete that waits at the per-name lock (behind a close_collection
+/// or a storage-loading open) when `AndaDB::set_read_only(true)` arrives still erases the
+/// collection (patch proposal C06-queued-delete-collection-rechecks-database-read-only). It is
+/// MEASURED here; flip this switch once the repository re-checks the mode under the lock.
+const ASSERT_DB_QUEUE: bool = false;
+
+fn db_queue_case(case: u64, rng: &mut Rng, st: &mut Stats) {
+    let behind_open = case % 2 == 1;
+    let wl = rng.fork();
+    block_on(async {
+        let mut k = 1usize;
+        loop {
+            let mut r = wl.clone();
+            let Some((store, d)) = populate(&mut r, st, 6, case % 4 < 2).await else { return };
+            let db = d.db.clone();
+            if behind_open && db.close_collection(COLL).await.is_err() {
+                return;
+            }
+            store.set_gate(true);
+            let mut ex: ManualExec<'_, Result<(), String>> = ManualExec::new();
+            let db1 = db.clone();
+            let th = ex.spawn(async move {
+                if behind_open {
+                    open_coll(&db1, IndexSet::ALL).await.map(|_| ()).map_err(|e| format!("{e:?}"))
+                } else {
+                    db1.close_collection(COLL).await.map_err(|e| format!("{e:?}"))
+                }
+            });
+            let mut h_done = false;
+            for _ in 0..k {
+                if ex.poll(th) {
+                    h_done = true;
+                    break;
+                }
+            }
+            if h_done {
+                store.set_gate(false);
+                break;
+            }
+            let db2 = db.clone();
+            let tdel = ex.spawn(async move { db2.delete_collection(COLL).await.map_err(|e| format!("{e:?}")) });
+            let del_done = ex.poll(tdel);
+            let waited = !del_done && !ex.enabled().contains(&tdel);
+            db.set_read_only(true);
+            store.set_gate(false);
+            for _ in 0..4000 {
+                if !ex.enabled().contains(&th) {
+                    break;
+                }
+                ex.poll(th);
+            }
+            let woken_by_holder = ex.enabled().contains(&tdel);
+            let mark = store.mark();
+            for _ in 0..4000 {
+                if !ex.enabled().contains(&tdel) {
+                    break;
+                }
+                ex.poll(tdel);
+            }
+            let unfinished = !ex.all_done();
+            let res = ex.take_result(tdel);
+            drop(ex);
+            st.eval();
+            st.count("db_queue_points");
+            if unfinished {
+                st.violation("C06/db_queue/call_never_returns", json!({"behind_open": behind_open, "holder_parked_after_polls": k, "history": d.history}));
+                return;
+            }
+            if waited && woken_by_holder {
+                let wrote = effective_under_prefix(&store, mark);
+                st.count("db_queue_deletes_that_waited_at_the_name_lock");
+                if matches!(res, Some(Ok(()))) || !wrote.is_empty() {
+                    st.count("db_queue_queued_delete_ran_on_a_read_only_database(measured)");
+                    if ASSERT_DB_QUEUE {
+                        st.violation("C06/db_queue/queued_delete_collection_ran_after_the_database_became_read_only",
+                            json!({"behind_open": behind_open, "holder_parked_after_polls": k, "result": format!("{res:?}"), "mutations": wrote.len(), "first": wrote.iter().take(6).collect::<Vec<_>>(), "history": d.history}));
+                        return;
+                    }
+                } else {
+                    st.count("db_queue_queued_delete_refused");
+                }
+            } else {
+                st.count("db_queue_delete_did_not_wait(not judged)");
+            }
+            k += if k < 6 { 1 } else { 5 };
+            if k > 400 {
+                break;
+            }
+        }
+    });
+}
+
 fn main() {
     let mut run = Run::from_args(
         "C06",
         "exploration",
         "silence: one evaluation = one transition followed by every mutating API on the retained handle; cancel: one \
          evaluation = one (API, number of polls before the drop) pair, enumerated for k = 1.. until the call completes; \
-         queued: one evaluation = one schedule of a transition against 1-2 in-flight operations. Distinct by (transition, \
-         history) / (API, k) / (transition, operation count)",
+         queued: one evaluation = one schedule of a transition against 1-2 in-flight operations; gate_queue: one evaluation = \
+         one (holder of the exclusive gate, park point k, transition) with 1-9 calls waiting at the gate. Distinct by \
+         (transition, history) / (API, k) / (transition, operation count) / (holder, transition, k)",
     );
     run.assume("close() itself is the transition: its final flush of already-acknowledged state is allowed; only calls after it returned (or queued behind it) must be silent");
     run.assume("a collection-level read-only flag may be lifted again by set_read_only(false); only closed / deleted / poisoned handles can never be re-enabled");
+    run.assume("a call that was ADMITTED before a read-only switch (it holds its operation lease, e.g. the parked flush itself) may finish its writes; calls still waiting for the operation gate when the switch / close / delete / poison happened may not write at all");
     run.assume("suspension points are the backend calls and lock waits of the async code: each poll of a gated call stops at exactly one of them");
     let t = run.tier;
     if run.wants("silence") {
@@ -954,9 +1528,34 @@ fn main() {
     if run.wants("queued_poison") {
         run.parallel("queued_poison", t.pick(84, 1260), 0.95, queued_poison_case);
     }
+    if run.wants("gate_queue") {
+        let n = gate_scenarios().len() as u64;
+        run.parallel("gate_queue", n * t.pick(2, 24), 0.95, gate_queue_case);
+    }
+    if run.wants("db_queue") {
+        run.parallel("db_queue", t.pick(8, 64), 0.95, db_queue_case);
+    }
     for tr in TRANSITIONS {
         run.floor(&format!("silence:{tr:?}"), 10);
     }
+    // gate_queue: every call kind was judged while it waited at the gate, under every transition;
+    // the control scenarios show that the same queued calls are admitted and write otherwise
+    run.floor("gate_queue_calls_judged", 2000);
+    run.floor("gate_queue_judged_calls_that_waited_at_the_gate", 2000);
+    for call in GCALLS {
+        run.floor(&format!("gate_queue_judged:{call:?}"), 200);
+        run.floor(&format!("gate_queue_control_accepted:{call:?}"), 60);
+    }
+    for tr in GTRS {
+        if !tr.unjudged() {
+            run.floor(&format!("gate_queue_judged_under:{tr:?}"), if tr == GTr::PoisonByFault { 60 } else { 200 });
+        }
+    }
+    run.floor_set("gate_queue_judged_transition_x_call", 81);
+    run.floor_set("gate_queue_judged_holder_x_transition", 40);
+    run.floor("gate_queue_control_writer_wrote", 300);
+    run.floor("gate_queue_reopens_audited", 250);
+    run.floor("db_queue_deletes_that_waited_at_the_name_lock", 20);
     run.floor("queued_behind_poisoning_drop_judged", 50);
     run.floor("queued_behind_readonly_judged", 30);
     run.floor("reopen_while_a_call_of_the_poisoned_handle_is_in_flight", 10);
